@@ -199,6 +199,79 @@ Section Proofs.
     - exact Hloop.
   Qed.
 
+  (* the loop with the pop first: when the budget runs out before the staged queue does, the
+     description popped by the last evaluation of the condition is lost *)
+  Lemma loop_pop_then_budget (sh : add_new_shape) (k : Z) :
+    sh_order sh = PopThenBudget -> sh_test sh = PostDec -> body_converts k (sh_body sh) ->
+    forall (staged : list D) (b : Z) (s : bst), b_cur s = None ->
+      0 <= b < Z.of_nat (length staged) ->
+      let n := Z.to_nat b in
+      let r := add_new_loop sh b staged s in
+      fst (fst r) = skipn (S n) staged /\
+      b_pending (snd (fst r)) = b_pending s ++ firstn n staged /\
+      b_count (snd (fst r)) = b_count s - b /\
+      b_added (snd (fst r)) = (b_added s + n)%nat.
+  Proof.
+    intros Ho Ht Hb. induction staged as [|t rest IH]; intros b s Hc Hr.
+    - cbn in Hr. lia.
+    - cbn [add_new_loop]. rewrite Ho, Ht. cbn [test_budget].
+      destruct (b =? 0) eqn:E; cbn [negb].
+      + apply Z.eqb_eq in E. subst b. cbn. rewrite app_nil_r. repeat split; auto; lia.
+      + apply Z.eqb_neq in E. cbn [length] in Hr.
+        rewrite (Hb t s Hc).
+        specialize (IH (b - 1)
+          (mkB (b_pending s ++ [t]) (b_count s - 1) (t :: b_map s) (b_mapcount s + k) (S (b_added s)) None)
+          eq_refl ltac:(lia)).
+        cbn zeta in IH. cbn [b_pending b_count b_map b_mapcount b_added b_cur] in IH.
+        destruct IH as (I1 & I2 & I3 & I4).
+        replace (Z.to_nat b) with (S (Z.to_nat (b - 1))) by lia.
+        cbn [skipn firstn].
+        repeat split; auto.
+        * rewrite I2, <- app_assoc. reflexivity.
+        * rewrite I3. lia.
+        * rewrite I4. lia.
+  Qed.
+
+  Lemma swap_order_good (sh : add_new_shape) :
+    good_shape sh ->
+    sh_order (swap_order sh) = PopThenBudget /\ sh_test (swap_order sh) = PostDec /\
+    sh_guard (swap_order sh) = sh_guard sh /\ exists k, body_converts k (sh_body (swap_order sh)).
+  Proof.
+    intros (Ho & Ht & _ & Hb). unfold swap_order. cbn. rewrite Ho. auto.
+  Qed.
+
+  (* every call with 0 < budget < |staged| loses exactly one description with the pop first *)
+  Lemma add_new_pop_then_budget_loses_one (sh : add_new_shape) :
+    sh = tq_add_new \/ sh = mc_add_new ->
+    forall (budget : Z) (staged : list D) (s : bst),
+      b_count s = Z.of_nat (length staged) -> 0 < budget < Z.of_nat (length staged) ->
+      let n := Z.to_nat budget in
+      let r := add_new (swap_order sh) budget staged s in
+      fst r = skipn (S n) staged /\
+      b_pending (snd r) = b_pending s ++ firstn n staged /\
+      S (length (b_pending (snd r) ++ fst r)) = length (b_pending s ++ staged) /\
+      b_count (snd r) = Z.of_nat (length (fst r)) + 1.
+  Proof.
+    intros Hsh budget staged s Hcnt Hr n r.
+    assert (G : good_shape sh) by (destruct Hsh as [-> | ->]; [apply tq_add_new_good | apply mc_add_new_good]).
+    destruct (swap_order_good sh G) as (Ho & Ht & Hg & k & Hb).
+    pose proof (loop_pop_then_budget (swap_order sh) k Ho Ht Hb staged budget
+                  (mkB (b_pending s) (b_count s) (b_map s) (b_mapcount s) 0%nat None) eq_refl ltac:(lia)) as L.
+    cbn zeta in L. cbn [b_pending b_count b_map b_mapcount b_added b_cur] in L.
+    fold n in L. destruct L as (L1 & L2 & L3 & _).
+    assert (Hrr : r = fst (add_new_loop (swap_order sh) budget staged
+                               (mkB (b_pending s) (b_count s) (b_map s) (b_mapcount s) 0%nat None))).
+    { unfold r, add_new. rewrite Hg.
+      destruct G as (_ & _ & [Hg' | Hg'] & _); rewrite Hg'.
+      - destruct (budget =? 0) eqn:E; [apply Z.eqb_eq in E; lia | reflexivity].
+      - destruct (b_count s =? 0) eqn:E; [apply Z.eqb_eq in E; lia | reflexivity]. }
+    rewrite Hrr. cbn [fst snd].
+    assert (Hlen : (S n <= length staged)%nat) by lia.
+    repeat split; auto.
+    - rewrite L1, L2, !app_length, skipn_length, firstn_length. lia.
+    - rewrite L1, L3, Hcnt, skipn_length. lia.
+  Qed.
+
   (* the regenerated loops *)
   Lemma add_new_batch_conserves (sh : add_new_shape) :
     sh = tq_add_new \/ sh = mc_add_new ->
